@@ -1000,7 +1000,89 @@ func dumpDB(w *bufio.Writer, db *descriptor.Database) {
 	}
 }
 
+// ---------------------------------------------------------------------------- history
+//
+// A CompileResult is a value the caller keeps (cantool generate walks a directory and compiles file
+// after file in one process).  The harness therefore keeps the results of the last histWindow Compile
+// calls alive, together with the dump taken right after each call, and after EVERY later Compile call
+// dumps the kept results again: database, warnings (kind, position and the full Error() text) must be
+// unchanged.  At the end of every file the original order is compiled once more, after all the
+// reorderings (and, through the window, after other files): the result must be identical to the first one.
+//
+//	HIST kept <file> <variant> <#kept results re-dumped> same
+//	HIST kept <file> <variant> <#> changed <kept file> <kept variant> s:<dump before> s:<dump now> s:<kept text> s:<text compiled last>
+//	HIST again <file> <variant> same | changed s:<first dump> s:<second dump> s:<text>
+const histWindow = 4
+
+type keptT struct {
+	file, variant int
+	text          string
+	res           *generate.CompileResult
+	dump          string
+}
+
+var kept []keptT
+
+func histDump(res *generate.CompileResult) string {
+	var sb strings.Builder
+	bw := bufio.NewWriter(&sb)
+	dumpDB(bw, res.Database)
+	for _, wn := range res.Warnings {
+		reason, def, ok := generate.VerifWarningInfo(wn)
+		if ok {
+			fmt.Fprintf(bw, "WARN %s %s ", warnKind(reason), dP(def.Position()))
+		}
+		fmt.Fprintf(bw, "WARNTEXT %s\n", wn.Error())
+	}
+	bw.Flush()
+	return sb.String()
+}
+
+// after the Compile call of (file, variant): every kept result must still dump as it did
+func histCheck(w *bufio.Writer, file, variant int, text string, res *generate.CompileResult) {
+	first := histDump(res)
+	bad := -1
+	var now string
+	for i := range kept {
+		if d := histDump(kept[i].res); d != kept[i].dump {
+			bad, now = i, d
+			break
+		}
+	}
+	if bad < 0 {
+		fmt.Fprintf(w, "HIST kept %d %d %x same\n", file, variant, len(kept))
+	} else {
+		k := kept[bad]
+		fmt.Fprintf(w, "HIST kept %d %d %x changed %d %d %s %s %s %s\n", file, variant, len(kept), k.file, k.variant,
+			hS(k.dump), hS(now), hS(k.text), hS(text))
+		kept[bad].dump = now // report each change once
+	}
+	kept = append(kept, keptT{file, variant, text, res, first})
+	if len(kept) > histWindow {
+		kept = kept[1:]
+	}
+}
+
+// compile a text a second time, after other texts: identical result
+func histAgain(w *bufio.Writer, file, variant int, source, text, firstDump string) {
+	res, err := generate.Compile(source, []byte(text))
+	if err != nil {
+		fmt.Fprintf(w, "HIST again %d %d changed %s %s %s\n", file, variant, hS(firstDump), hS("error: "+err.Error()), hS(text))
+		return
+	}
+	if d := histDump(res); d != firstDump {
+		fmt.Fprintf(w, "HIST again %d %d changed %s %s %s\n", file, variant, hS(firstDump), hS(d), hS(text))
+	} else {
+		fmt.Fprintf(w, "HIST again %d %d same\n", file, variant)
+	}
+	histCheck(w, file, -1, text, res)
+}
+
+// dump of the result of the last runCase ("" when it did not compile)
+var lastDump string
+
 func runCase(w *bufio.Writer, file, variant int, kind, what, source, text string) {
+	lastDump = ""
 	fmt.Fprintf(w, "CASE %d %d %s %s\n", file, variant, kind, what)
 	fmt.Fprintf(w, "TEXT %s\n", hS(text))
 	p := dbc.NewParser(source, []byte(text))
@@ -1026,6 +1108,8 @@ func runCase(w *bufio.Writer, file, variant int, kind, what, source, text string
 		fmt.Fprintf(w, "WARN %s %s\n", warnKind(reason), dP(def.Position()))
 	}
 	fmt.Fprintln(w, "END")
+	lastDump = histDump(res)
+	histCheck(w, file, variant, text, res)
 }
 
 // the non-ASCII rune classes of the scanner (unicode.IsLetter / unicode.IsDigit), as maximal ranges
@@ -1068,6 +1152,16 @@ func main() {
 		nWild, _ = strconv.Atoi(os.Args[3])
 	}
 	r := rand.New(rand.NewSource(seed))
+	type againT struct {
+		file               int
+		source, text, dump string
+	}
+	var prev *againT
+	defer func() {
+		if prev != nil {
+			histAgain(w, prev.file, 0, prev.source, prev.text, prev.dump)
+		}
+	}()
 	for fi := 0; fi < nClass+nWild; fi++ {
 		kind := "class"
 		if fi >= nClass {
@@ -1094,6 +1188,15 @@ func main() {
 			variant++
 		}
 		emit("original", idMsgs, idSigs, idMeta)
+		// the original order of the PREVIOUS file is compiled again now, after this file's original (and, for
+		// class files, after all reorderings of its own): identical result required
+		if prev != nil {
+			histAgain(w, prev.file, 0, prev.source, prev.text, prev.dump)
+			prev = nil
+		}
+		if lastDump != "" {
+			prev = &againT{fi, source, f.render(idMsgs, idSigs, idMeta), lastDump}
+		}
 		if kind == "wild" {
 			continue
 		}
